@@ -1,7 +1,7 @@
 (* Extraction of the executable model for the correspondence check.
    ExtrOcamlBasic only: bool/option/unit/list/prod/sumbool map to OCaml's;
    N/positive/nat stay inductive. No Extract Constant of ours. *)
-From XS Require Import Model.Store Model.Spec Model.Conc Model.Http Model.Handler Model.Codec Model.Restart Model.Service Model.Json.
+From XS Require Import Model.Store Model.Spec Model.Conc Model.Http Model.Handler Model.Codec Model.Restart Model.Service Model.Json Model.Route.
 Require Import ExtrOcamlBasic.
 Cd "../build/extract".
 Extraction "xsmodel.ml" step run empty_store a_step a_empty hyp_ok hyp_all a_ctxs spec_read be16 of_be frame_eqb N.of_nat N.to_nat
@@ -11,4 +11,5 @@ Extraction "xsmodel.ml" step run empty_store a_step a_empty hyp_ok hyp_all a_ctx
   parse_ttl ttl_to_string ttl_of_pairs ro_of_pairs ro_to_pairs
   compact_handlers compact_generators compact_commands spec_handlers spec_generators spec_commands
   call_frames lifecycles cserve_step cboot duplex_input instance_input
-  parse_json print_json normalize decode_frame encode_frame readable accept nest.
+  parse_json print_json normalize decode_frame encode_frame readable accept nest
+  route_path.
